@@ -9,7 +9,7 @@ Bind   every case is built into real FNodes (harness.upj.b_expr, public construc
        exception class, the size of the expression manager's table before/after, the projections of
        the expression, keys and values before/after.
 Judge  spec/SubstTrace.tla: Subst!Fails decides every clause (Reject, RejectClass,
-       RejectedBeforeAnythingChanges, Accept, EitherClass, Result, Semantic, InputsUntouched).
+       RejectClean, Accept, EitherClass, Result, Semantic, InputsUntouched).
 Python builds, calls, projects and numbers records; it never compares a result with an expectation.
 """
 import json
@@ -24,6 +24,7 @@ ENUM_CFG = """INIT Init
 NEXT Next
 %(inv)s
 CONSTANTS Thorough = %(thorough)s
+ SS = %(SS)d
  SD = %(SD)d
  S1 = %(S1)d
  SE = %(SE)d
@@ -31,6 +32,8 @@ CONSTANTS Thorough = %(thorough)s
  SQ = %(SQ)d
  Off = %(Off)d
 """
+
+NBLOCKS = 64  # MCSubst!NB
 
 TRACE_CFG = """SPECIFICATION TraceSpec
 INVARIANT Verdict
@@ -171,6 +174,7 @@ def replay_case(ctx, world, tab, cid, e_rec, m_rec, entry):
 
 
 ENTRIES = ("fnode", "env", "fresh")
+MAX_TIMEOUTS = 4
 
 
 def replay_all(ctx, desc, groups):
@@ -181,6 +185,7 @@ def replay_all(ctx, desc, groups):
     cases = {}
     world = World(desc)
     cid = 0
+    timeouts = 0
     for g in groups:
         for m in g["ms"]:
             cid += 1
@@ -190,6 +195,11 @@ def replay_all(ctx, desc, groups):
             o = replay_case(ctx, world, tab, cid, g["e"], m, ENTRIES[cid % 3])
             if o is None:
                 world = World(desc)
+                timeouts += 1
+                if timeouts >= MAX_TIMEOUTS:
+                    # every further case may cost the full time limit: judge what has been recorded
+                    ctx.notes["replay_stopped_after_timeouts"] = cid
+                    return tab, obs, cases
                 continue
             obs.append(o)
             if o["kind"] != "val" and (o["n0"] != o["n1"] or not world.clean() or o["exc"] != "UPTypeError"):
@@ -199,36 +209,52 @@ def replay_all(ctx, desc, groups):
 
 def corrupt(obs, tab):
     """Vacuity guard: corrupted copies of real observations which the judge must reject.
-    Returns [(observation, clause the judge has to name)]."""
+    Returns [(observation, clauses one of which the judge has to name, description)]."""
     out = []
-    val = [o for o in obs if o["kind"] == "val" and o["res"] != o["e"]]
-    exc = [o for o in obs if o["kind"] == "exc" and o["exc"] == "UPTypeError"]
-    same = [o for o in obs if o["kind"] == "val" and o["mk"]]
-    if val:
-        o = dict(val[len(val) // 2])
-        o["res"] = o["e"]  # "nothing was replaced"
-        out.append((o, "Result"))
-    if exc:
-        o = dict(exc[len(exc) // 2])
-        o["n1"] = o["n0"] + 1  # "a node was created before the rejection"
-        out.append((o, "RejectedBeforeAnythingChanges"))
-        o = dict(exc[len(exc) // 3])
-        o["kind"], o["res"], o["exc"] = "val", o["e"], ""  # "the ill-sorted map was accepted"
-        out.append((o, "Reject"))
-    if same:
-        o = dict(same[len(same) // 2])
-        o["kind"], o["exc"], o["res"] = "exc", "KeyError", 0  # "a compatible map raised"
-        out.append((o, "Accept|EitherClass"))
-    for n, (o, _) in enumerate(out):
+
+    def pick(pred, frac):
+        xs = [o for o in obs if pred(o)]
+        return dict(xs[int(len(xs) * frac)]) if xs else None
+
+    def add(o, want, what, **changes):
+        if o is not None:
+            o.update(changes)
+            out.append((o, want, what))
+
+    changed = lambda o: o["kind"] == "val" and o["res"] != o["e"]
+    rejected = lambda o: o["kind"] == "exc" and o["exc"] == "UPTypeError"
+    o = pick(changed, 0.5)
+    add(o, "Result", "nothing was replaced", res=o and o["e"])
+    o = pick(changed, 0.25)
+    add(o, "Result", "another expression was returned", res=o and (o["mk"][0] if o["mk"][0] != o["res"] else o["mv"][0]))
+    o = pick(lambda o: o["kind"] == "val" and o["res"] == o["e"] and o["mk"], 0.5)
+    add(o, "Result", "something was replaced although no key occurs", res=o and (o["mv"][0] if o["mv"][0] != o["e"] else o["mk"][0]))
+    o = pick(rejected, 0.5)
+    add(o, "RejectClean", "a node was created before the rejection", n1=o and o["n0"] + 1)
+    o = pick(rejected, 0.7)
+    add(o, "RejectClean", "the expression changed during a rejected call", ea=o and o["mk"][0] if o and o["mk"][0] != o["eb"] else o and o["mv"][0])
+    o = pick(rejected, 0.3)
+    add(o, "Reject", "the ill-sorted map was accepted", kind="val", exc="", res=o and o["e"])
+    o = pick(rejected, 0.4)
+    add(o, "RejectClass|EitherClass", "the rejection raised another exception class", exc="AssertionError")
+    o = pick(lambda o: o["kind"] == "val" and o["mk"], 0.5)
+    add(o, "Accept|EitherClass", "a compatible map raised", kind="exc", exc="KeyError", res=0)
+    o = pick(lambda o: o["kind"] == "val" and len(o["mk"]) >= 1, 0.6)
+    add(o, "InputsUntouched", "a key changed during the call", ka=o and [o["e"] if o["kb"][0] != o["e"] else o["res"]] + o["kb"][1:])
+    o = pick(lambda o: o["kind"] == "val", 0.4)
+    add(o, "ReturnsExpression", "the call returned something that is not an expression", kind="bad", exc="unprojectable:AttributeError", res=0)
+    o = pick(lambda o: o["kind"] == "val", 0.2)
+    add(o, "BuildFaithful", "the built expression does not project back to the case", eb=o and o["eb"] + 1, ea=o and o["eb"] + 1)
+    for n, (o, _, _) in enumerate(out):
         o["id"] = 1000000000 + n
     return out
 
 
-def judge(ctx, label, tab, obs, cases, guard):
+def judge(ctx, label, tab, obs, cases, guard, desc=None):
     d = ctx.sub("judge-" + label)
     tpath = os.path.join(d, "tab.ndjson")
     opath = os.path.join(d, "obs.ndjson")
-    allobs = obs + [o for o, _ in guard]
+    allobs = obs + [o for o, _, _ in guard]
     tlc.write_ndjson(tpath, tab.rows)
     tlc.write_ndjson(opath, allobs)
     res = tlc.run_tlc("SubstTrace", TRACE_CFG, d, env={"TAB": tpath, "TRACES": opath}, timeout=3000)
@@ -240,6 +266,9 @@ def judge(ctx, label, tab, obs, cases, guard):
     ctx.cov["traces_validated_against_impl"] += len(obs)
     byid = {o["id"]: o for o in allobs}
     guard_hit = {}
+    nfail = sum(1 for p in res.printed if p and p[0] == "FAIL")
+    if nfail != res.stdout.count('"FAIL"'):
+        raise MachineryError("judge printed %d FAIL records, %d were parsed (line wrapping?)" % (res.stdout.count('"FAIL"'), nfail))
     for p in res.printed:
         if not p or p[0] != "FAIL":
             continue
@@ -258,6 +287,7 @@ def judge(ctx, label, tab, obs, cases, guard):
             "entry": o["entry"],
             "observed": {"kind": o["kind"], "exc": o["exc"], "res": tab.rows[o["res"] - 1] if o["res"] else None, "n0": o["n0"], "n1": o["n1"]},
             "clause": clause,
+            "world": desc,
         }
         if clause in MACHINERY_CLAUSES:
             raise MachineryError("judge clause %s fails on case %d: %s" % (clause, cid, json.dumps(data)[:800]))
@@ -266,10 +296,11 @@ def judge(ctx, label, tab, obs, cases, guard):
             "substitute: clause %s fails on a map the specification marks '%s' (%s)" % (clause, verdict, feat),
             data,
         )
-    for o, want in guard:
+    for o, want, what in guard:
         got = guard_hit.get(o["id"], set())
         if not (got & set(want.split("|"))):
-            raise MachineryError("vacuity guard: corrupted observation %d expected to fail %s, judge said %s" % (o["id"], want, sorted(got)))
+            raise MachineryError("vacuity guard: corrupted observation %d (%s) expected to fail %s, judge said %s" % (o["id"], what, want, sorted(got)))
+    ctx.notes["vacuity_guard"] = ["%s -> %s" % (what, want) for _, want, what in guard]
     return res
 
 
@@ -303,8 +334,8 @@ def enumerate_cases(ctx, knobs, label, invariants=True):
             "design level: invariant %s of MCSubst fails on an enumerated case" % res.violated,
             {"state": st, "e": g["e"] if g else None, "m": g["ms"][st["mi"] - 1] if g else None, "knobs": knobs},
         )
-    elif invariants and res.distinct != ncases:
-        raise MachineryError("T1 visited %d states for %d cases" % (res.distinct, ncases))
+    elif invariants and res.distinct != ncases + NBLOCKS:
+        raise MachineryError("T1 visited %d states for %d cases" % (res.distinct - NBLOCKS, ncases))
     with open(desc) as fh:
         world = json.loads(fh.readline())
     return world, groups, feats, ncases
@@ -322,9 +353,9 @@ def run(ctx):
     q = ctx.quick
     off = ctx.rng.randrange(0, 997)
     if q:
-        knobs = dict(thorough="FALSE", SD=6, S1=6, SE=12, S2=14, SQ=5, Off=off)
+        knobs = dict(thorough="FALSE", SS=1, SD=6, S1=6, SE=12, S2=14, SQ=5, Off=off)
     else:
-        knobs = dict(thorough="TRUE", SD=16, S1=8, SE=10, S2=10, SQ=2, Off=off)
+        knobs = dict(thorough="TRUE", SS=6, SD=24, S1=8, SE=12, S2=20, SQ=6, Off=off)
     desc, groups, feats, ncases = enumerate_cases(ctx, knobs, "main")
     for cls in REQUIRED:
         if feats.get(cls, 0) == 0:
@@ -332,9 +363,9 @@ def run(ctx):
     tab, obs, cases = replay_all(ctx, desc, groups)
     ctx.cov["evaluations"] += len(obs)
     guard = corrupt(obs, tab)
-    if len(guard) < 4:
+    if len(guard) < 11:
         raise MachineryError("vacuity guard could not be built (%d corrupted observations)" % len(guard))
-    judge(ctx, "main", tab, obs, cases, guard)
+    judge(ctx, "main", tab, obs, cases, guard, desc)
     nontrivial = sum(1 for o in obs if o["kind"] != "val" or o["res"] != o["e"])
     ctx.cov["distinct_nontrivial"] = nontrivial
     kinds = {}
@@ -362,3 +393,37 @@ def run(ctx):
         "a result containing a division by a closed zero term cannot be constructed at all (ZeroDivisionError in the type checker): counted as unspecified",
         "numeric fluents and parameters of the world are unbounded; fluent arguments are user-typed",
     ]
+
+
+def replay(ctx, data):
+    """Re-run the case of a replay file on the current tree and judge it again."""
+    d = data["data"]
+    if data["signature"].startswith("T1|"):
+        desc, groups, feats, ncases = enumerate_cases(ctx, d["knobs"], "replay")
+    else:
+        desc = d["world"]
+        tab = Table()
+        world = World(desc)
+        o = replay_case(ctx, world, tab, 1, d["e"], d["m"], d.get("entry", "fnode"))
+        if o is not None:
+            print("observed: kind=%s exc=%s n0=%s n1=%s" % (o["kind"], o["exc"], o["n0"], o["n1"]))
+            if o["res"]:
+                print("result: %s" % json.dumps(tab.rows[o["res"] - 1]))
+            judge(ctx, "replay", tab, [o], {1: (d["e"], d["m"])}, [], desc)
+    for v in ctx.violations:
+        print("REPLAY %s: %s" % (v.sig, v.what))
+    print("replayed 1 case: %d clause(s) fail" % len(ctx.violations))
+    return 1 if ctx.violations else 0
+
+
+def selftest(ctx):
+    """The judge must reject every corrupted observation (and accept the uncorrupted ones)."""
+    knobs = dict(thorough="FALSE", SS=4, SD=1000, S1=1000, SE=1000, S2=1000, SQ=1000, Off=0)
+    desc, groups, feats, ncases = enumerate_cases(ctx, knobs, "selftest", invariants=False)
+    tab, obs, cases = replay_all(ctx, desc, groups)
+    guard = corrupt(obs, tab)
+    judge(ctx, "selftest", tab, obs, cases, guard, desc)  # raises MachineryError when a corruption is missed
+    for _, want, what in guard:
+        print("selftest: %-70s rejected (%s)" % (what, want))
+    print("selftest: %d corrupted observations rejected, %d genuine observations judged, %d violation(s)" % (len(guard), len(obs), len(ctx.violations)))
+    return 0 if len(guard) >= 11 and not ctx.violations else 1
